@@ -46,9 +46,10 @@ var flattenOwners = map[string][]string{
 }
 
 type wrapUse struct {
-	owner *types.Named
-	field *types.Var
-	wtype *types.Named
+	owner    *types.Named
+	field    *types.Var
+	wtype    *types.Named
+	embedded bool // an embedded method-less struct that only groups fields of its owner(s)
 }
 
 var scratchDirs []string
@@ -88,11 +89,23 @@ func flattenWrappers(w *World) (string, []string, string) {
 			for i := 0; i < st.NumFields(); i++ {
 				f := st.Field(i)
 				wn, _ := f.Type().(*types.Named) // by value only
-				if wn == nil || wn.Obj().Pkg() != p.Types || wn.Obj().Exported() || f.Embedded() {
+				if wn == nil || wn.Obj().Pkg() != p.Types || wn.Obj().Exported() {
 					continue
 				}
 				wst, ok := wn.Underlying().(*types.Struct)
-				if !ok || wn.NumMethods() == 0 {
+				if !ok {
+					continue
+				}
+				if f.Embedded() {
+					// grouping struct: no methods, its fields are promoted
+					if wn.NumMethods() == 0 {
+						u := wrapUse{named, f, wn, true}
+						uses = append(uses, u)
+						byPkg[p] = append(byPkg[p], u)
+					}
+					continue
+				}
+				if wn.NumMethods() == 0 {
 					continue
 				}
 				hasSync := false
@@ -104,7 +117,7 @@ func flattenWrappers(w *World) (string, []string, string) {
 				if !hasSync {
 					continue
 				}
-				u := wrapUse{named, f, wn}
+				u := wrapUse{named, f, wn, false}
 				uses = append(uses, u)
 				byPkg[p] = append(byPkg[p], u)
 			}
@@ -153,7 +166,12 @@ func flattenPackage(w *World, p *packages.Package, uses []wrapUse, outRoot strin
 		}
 		return nil
 	}
-	flatName := func(f *types.Var, inner string) string { return f.Name() + "_" + inner }
+	flatName := func(f *types.Var, inner string) string {
+		if fieldUse[f].embedded {
+			return inner // promoted fields keep their names
+		}
+		return f.Name() + "_" + inner
+	}
 
 	// ---- every mention of a wrapper type must be one of the recognised shapes
 	allowed := map[*ast.Ident]bool{}
@@ -336,8 +354,30 @@ func flattenPackage(w *World, p *packages.Package, uses []wrapUse, outRoot strin
 			var fields []*ast.Field
 			for _, fl := range st.Fields.List {
 				wn := isWrapper(info.TypeOf(fl.Type))
-				if wn == nil || len(fl.Names) == 0 {
+				if wn == nil {
 					fields = append(fields, fl)
+					continue
+				}
+				if len(fl.Names) == 0 {
+					// embedded grouping struct: its fields take its place
+					id, _ := fl.Type.(*ast.Ident)
+					var fv *types.Var
+					if id != nil {
+						fv, _ = info.Defs[id].(*types.Var)
+					}
+					gd := typeSpecs[wn]
+					if u, isW := fieldUse[fv]; !isW || !u.embedded || gd == nil {
+						refuse(fl.Pos(), "an embedded struct of the repository outside the shared owners")
+						fields = append(fields, fl)
+						continue
+					}
+					wst := gd.Specs[0].(*ast.TypeSpec).Type.(*ast.StructType)
+					for _, wf := range wst.Fields.List {
+						if len(wf.Names) == 0 {
+							refuse(wf.Pos(), "the grouping struct embeds another type")
+						}
+						fields = append(fields, &ast.Field{Names: wf.Names, Type: wf.Type})
+					}
 					continue
 				}
 				gd := typeSpecs[wn]
@@ -524,4 +564,135 @@ func flattenPackage(w *World, p *packages.Package, uses []wrapUse, outRoot strin
 		}
 	}
 	return ""
+}
+
+// inlineBuildTail: Build's pipeline split in two (`doBuild` validates, then
+// `return sc.createProvider(ctx, g, all)` allocates the provider, creates the
+// singletons and runs the initializers). The pipeline rules are written for one
+// function; the analysed copy gets the tail call replaced by the callee's body
+// (parameters bound to the argument identifiers), which is the program the
+// split was made from. Refused unless the call is the last statement of the
+// caller, a method of the same receiver, with identifier arguments, and the
+// callee has no other caller and no named results.
+func inlineBuildTail(w *World) (string, string, string) {
+	ro := resolveRoles(w)
+	caller, cal := ro.doBuild, ro.allocProvider
+	if caller == nil || cal == nil || caller == cal || caller.Pkg != cal.Pkg {
+		return "", "", ""
+	}
+	info := caller.Pkg.TypesInfo
+	body := caller.Decl.Body
+	if len(body.List) == 0 {
+		return "", "", ""
+	}
+	ret, ok := body.List[len(body.List)-1].(*ast.ReturnStmt)
+	if !ok || len(ret.Results) != 1 {
+		return "", "", ""
+	}
+	call, ok := unparen(ret.Results[0]).(*ast.CallExpr)
+	if !ok || callee(info, call) != cal.Obj {
+		return "", "", ""
+	}
+	name := cal.Name()
+	if len(w.Callers()[cal]) != 1 {
+		return "", name, "it has other callers"
+	}
+	if cal.Decl.Type.Results != nil {
+		for _, fl := range cal.Decl.Type.Results.List {
+			if len(fl.Names) > 0 {
+				return "", name, "it has named results"
+			}
+		}
+	}
+	var binds []string
+	used := func(o types.Object) bool { return usesObj(info, cal.Decl.Body, o) }
+	if cal.Decl.Recv != nil {
+		rcv, _, isM := methodCall(call)
+		if !isM || caller.Decl.Recv == nil || len(cal.Decl.Recv.List[0].Names) != 1 {
+			return "", name, "receiver shape"
+		}
+		rid, isId := unparen(rcv).(*ast.Ident)
+		if !isId {
+			return "", name, "the receiver of the call is not an identifier"
+		}
+		cr := cal.Decl.Recv.List[0].Names[0]
+		if cr.Name != rid.Name && used(info.Defs[cr]) {
+			binds = append(binds, cr.Name+" := "+rid.Name)
+		}
+	}
+	k := 0
+	for _, fl := range cal.Decl.Type.Params.List {
+		for _, nm := range fl.Names {
+			if k >= len(call.Args) {
+				return "", name, "argument count"
+			}
+			aid, isId := unparen(call.Args[k]).(*ast.Ident)
+			if !isId {
+				return "", name, "an argument is not an identifier"
+			}
+			if nm.Name != aid.Name && nm.Name != "_" && used(info.Defs[nm]) {
+				binds = append(binds, nm.Name+" := "+aid.Name)
+			}
+			k++
+		}
+	}
+	dir, err := os.MkdirTemp("", "godicheck-flat-")
+	if err != nil {
+		return "", name, err.Error()
+	}
+	scratchDirs = append(scratchDirs, dir)
+	if out, err := exec.Command("cp", "-a", w.Root+"/.", dir).CombinedOutput(); err != nil {
+		return "", name, "copy failed: " + string(out)
+	}
+	os.RemoveAll(filepath.Join(dir, ".git"))
+	type edit struct {
+		start, end int
+		text       string
+	}
+	edits := map[string][]edit{}
+	off := func(p token.Pos) (string, int) {
+		ps := w.Fset.Position(p)
+		return ps.Filename, ps.Offset
+	}
+	// the callee's body text (between its braces)
+	cf, cs := off(cal.Decl.Body.Lbrace)
+	_, ce := off(cal.Decl.Body.Rbrace)
+	src, err := os.ReadFile(cf)
+	if err != nil {
+		return "", name, err.Error()
+	}
+	inner := string(src[cs+1 : ce])
+	repl := "{\n" + strings.Join(binds, "\n") + "\n" + inner + "\n}"
+	rf, rs := off(ret.Pos())
+	_, re := off(ret.End())
+	edits[rf] = append(edits[rf], edit{rs, re, repl})
+	ds := cal.Decl.Pos()
+	if cal.Decl.Doc != nil {
+		ds = cal.Decl.Doc.Pos()
+	}
+	df, dso := off(ds)
+	_, deo := off(cal.Decl.End())
+	edits[df] = append(edits[df], edit{dso, deo, ""})
+	for file, es := range edits {
+		b, err := os.ReadFile(file)
+		if err != nil {
+			return "", name, err.Error()
+		}
+		sort.Slice(es, func(i, j int) bool { return es[i].start > es[j].start })
+		for _, e := range es {
+			b = append(append(append([]byte{}, b[:e.start]...), []byte(e.text)...), b[e.end:]...)
+		}
+		out, err := format.Source(b)
+		if err != nil {
+			return "", name, "formatting the inlined " + file + ": " + err.Error()
+		}
+		rel, err := filepath.Rel(w.Root, file)
+		if err != nil {
+			return "", name, err.Error()
+		}
+		if err := os.WriteFile(filepath.Join(dir, rel), out, 0o644); err != nil {
+			return "", name, err.Error()
+		}
+	}
+	return dir, name, ""
 }
